@@ -4,6 +4,10 @@ VERIF=/work/verif-<id> (this worktree), scratch repo worktree /work/repo-<id>-m.
 import subprocess, os, sys, json
 VERIF = os.path.dirname(os.path.dirname(os.path.abspath(__file__)))
 M = os.environ.get('C08_MUT', '/work/repo-p0809-m')
+MUTS2 = {
+ 'M22b': ('pyglove/core/symbolic/flags.py', """  return thread_local.thread_local_get(_TLS_ACCESSOR_WRITABLE, None)""", """  return globals().get('_ACC_IN_SCOPE')"""),
+ 'M21b': ('pyglove/core/symbolic/flags.py', """  return thread_local.thread_local_get(_TLS_SEALED, None)""", """  return globals().get('_SEALED_IN_SCOPE')"""),
+}
 MUTS = {
  'M1-list-sort-no-guard': ('pyglove/core/symbolic/list.py', """    if base.treats_as_sealed(self):
       raise base.WritePermissionError('Cannot sort a sealed List.')
@@ -94,6 +98,29 @@ MUTS = {
         v.seal(sealed)
     self._sym_attributes.sym_seal(sealed)
     super().seal(sealed)"""),
+ 'M21-sealed-override-in-a-module-global (seeded C08-8)': ('pyglove/core/symbolic/flags.py', """  return thread_local.thread_local_value_scope(_TLS_SEALED, sealed, None)""", """  import contextlib
+  @contextlib.contextmanager
+  def _scope():
+    global _SEALED_IN_SCOPE
+    previous = globals().get('_SEALED_IN_SCOPE')
+    globals()['_SEALED_IN_SCOPE'] = sealed
+    try:
+      yield
+    finally:
+      globals()['_SEALED_IN_SCOPE'] = previous
+  return _scope()""" ),
+ 'M22-accessor-override-in-a-module-global': ('pyglove/core/symbolic/flags.py', """  return thread_local.thread_local_value_scope(
+      _TLS_ACCESSOR_WRITABLE, writable, None
+  )""", """  import contextlib
+  @contextlib.contextmanager
+  def _scope():
+    previous = globals().get('_ACC_IN_SCOPE')
+    globals()['_ACC_IN_SCOPE'] = writable
+    try:
+      yield
+    finally:
+      globals()['_ACC_IN_SCOPE'] = previous
+  return _scope()"""),
  'M13-extended-slice-skips-acc-guard': ('pyglove/core/symbolic/list.py', """    if not base.writtable_via_accessors(self):
       raise base.WritePermissionError(
           self._error_message('Cannot modify List item by __setitem__ while '""", """    if not base.writtable_via_accessors(self) and not (
@@ -109,6 +136,10 @@ for name, (path, old, new) in MUTS.items():
   fp=os.path.join(M,path); s=open(fp).read()
   assert old in s, name
   open(fp,'w').write(s.replace(old,new,1))
+  if name.startswith(('M21-', 'M22-')):
+    p2, o2, n2 = MUTS2[name[:3] + 'b']
+    s2 = open(os.path.join(M, p2)).read(); assert o2 in s2
+    open(os.path.join(M, p2), 'w').write(s2.replace(o2, n2, 1))
   imp = subprocess.run(['/venv/bin/python','-c','import pyglove'],cwd=M,capture_output=True)
   env=dict(os.environ, VERIF_REPO=M)
   for f in os.listdir(VERIF+'/replays'):
